@@ -585,9 +585,19 @@ class WOFFDirectoryEntry(DirectoryEntry):
         if self.length == self.origLength:
             data = rawData
         else:
-            assert self.length < self.origLength
-            data = zlib.decompress(rawData)
-            assert len(data) == self.origLength
+            if self.length > self.origLength:
+                raise TTLibError(
+                    "compressed '%s' table is longer than the original" % self.tag
+                )
+            try:
+                data = zlib.decompress(rawData)
+            except zlib.error as e:
+                raise TTLibError("can't decompress '%s' table: %s" % (self.tag, e))
+            if len(data) != self.origLength:
+                raise TTLibError(
+                    "unexpected size for decompressed '%s' table: expected %d, "
+                    "found %d" % (self.tag, self.origLength, len(data))
+                )
         return data
 
     def encodeData(self, data):
